@@ -6,6 +6,9 @@ Model of the `--disable-config-keywords` filter of the annotation updater:
   `(*updater).buildBackendCustomConfig`
 * `pkg/converters/ingress/annotations/mapper.go`  `(*Mapper).Get` (which value the
   backend sees when several annotations and the global ConfigMap carry `config-backend`)
+* `pkg/converters/ingress/ingress.go`  `ReadAnnotations`, `addBackend`, `fullSyncAnnotations`: one
+  updater per sync, every backend of the sync goes through it in map iteration order (section
+  "one SYNC" at the end: `Backend`, `Updater`, `runSync`, `Cluster.backends`)
 
 A Go string is a byte sequence: `Str = List Nat`, every element `< 256` when it comes from
 the driver (the theorems do not need the bound: a value outside the table is not a space,
@@ -150,5 +153,186 @@ def oracle (kws : List Str) (anns : List (String × Str)) (glob : Str) (out : Li
     else if out = lines then none
     else if out = [] then some "clean-snippet-dropped"
     else some "clean-snippet-altered"
+
+
+/-! ## one SYNC: several backends, one updater
+
+`converters.Sync` builds ONE ingress converter (hence ONE `annotations.updater`) per
+reconciliation.  The Gateway API converter feeds its backends through
+`ReadAnnotations` first; `fullSyncAnnotations` then ranges over the Go map
+`Backends().Items()` and calls `UpdateBackendConfig` (→ `buildBackendCustomConfig`) on every
+backend that got a mapper — the processing order of one sync is therefore arbitrary.
+
+A backend of the sync is its id plus the values registered for `config-backend` on its
+mapper, in registration order, each with its source `(type, namespace, name)`
+(`annotations.Source`).  IngressClass parameters are registered with the Ingress as their
+source (`params` only tells the two apart for the reader of the log). -/
+
+inductive SrcType where
+  | service | ingress          -- `convtypes.ResourceService` / `convtypes.ResourceIngress`
+deriving Repr, DecidableEq
+
+structure Src where
+  type : SrcType
+  ns : String
+  name : String
+  params : Bool := false
+deriving Repr, DecidableEq
+
+/-- `Source.FullName()`: namespace/name WITHOUT the type -/
+def Src.fullName (s : Src) : String := s.ns ++ "/" ++ s.name
+
+/-- label used for the single-backend model (`Cfg.source`) and on the wire -/
+def Src.label (s : Src) : String :=
+  (match s.type, s.params with
+    | .service, _ => "S/"
+    | .ingress, false => "I/"
+    | .ingress, true => "P/") ++ s.fullName
+
+structure Backend where
+  id : String
+  anns : List (Src × Str)
+deriving Repr, DecidableEq
+
+/-- the annotation list of the single-backend model -/
+def Backend.lanns (b : Backend) : List (String × Str) := b.anns.map fun sv => (sv.1.label, sv.2)
+
+/-- source of the value `Mapper.Get` selects (`none` = global ConfigMap / default) -/
+def Backend.selSrc (b : Backend) : Option Src := b.anns.head?.map (·.1)
+
+/-- value `Mapper.Get` selects -/
+def Backend.selValue (b : Backend) (glob : Str) : Str := (mapperGet b.lanns glob).value
+
+/-- An updater: whatever it keeps from one `buildBackendCustomConfig` call to the next
+within a sync (`σ`), and the call itself on the selected `(source, value)`. -/
+structure Updater (σ : Type) where
+  init : σ
+  build : List Str → σ → Option Src → Str → Outcome × σ
+
+/-- the code as it is: the outcome is a function of the keywords and the selected value only -/
+def pureUpdater : Updater Unit where
+  init := ()
+  build kws _ src v := (customConfig kws ⟨src.map Src.label, v⟩, ())
+
+/-- `UpdateBackendConfig` on the backends in the given (processing) order, one updater -/
+def runSync {σ : Type} (u : Updater σ) (kws : List Str) (glob : Str) : σ → List Backend → List (Backend × Outcome)
+  | _, [] => []
+  | s, b :: bs =>
+    let r := u.build kws s b.selSrc (b.selValue glob)
+    (b, r.1) :: runSync u kws glob r.2 bs
+
+def sync {σ : Type} (u : Updater σ) (kws : List Str) (glob : Str) (bs : List Backend) : List (Backend × Outcome) :=
+  runSync u kws glob u.init bs
+
+/-- processing order as a list of positions (a permutation when every backend is updated once) -/
+def reorder (bs : List Backend) (ord : List Nat) : List Backend := ord.filterMap (bs[·]?)
+
+/-! ### the variant with a per-sync memo (seeded defect C19e)
+
+`findDisabledKeyword` caches the answer of the keyword scan in the updater under a key
+derived from the source; `lookupDisabledKeyword` is the old loop returning the keyword
+(`""` = allowed). -/
+
+/-- `lookupDisabledKeyword(keywords, lines)` -/
+def verdict (lines : List Str) : List Str → Str
+  | [] => []
+  | k :: ks =>
+    if k = [] then verdict lines ks
+    else if k = star then star
+    else if lines.any (fun l => firstToken l == k) then k
+    else verdict lines ks
+
+def ofVerdict (src : Option String) (lines : List Str) (w : Str) : Outcome :=
+  if w = star then .skipStar src
+  else if w ≠ [] then .skipKw src w
+  else .emitted lines
+
+def memoBuild (key : Option Src → String) (kws : List Str) (memo : List (String × Str))
+    (src : Option Src) (v : Str) : Outcome × List (String × Str) :=
+  let lines := lineToSlice v
+  let lbl := src.map Src.label
+  if lines = [] then (.noSnippet, memo)
+  else if kws = [] then (.emitted lines, memo)
+  else match memo.lookup (key src) with
+    | some w => (ofVerdict lbl lines w, memo)
+    | none =>
+      let w := verdict lines kws
+      (ofVerdict lbl lines w, (key src, w) :: memo)
+
+def memoUpdater (key : Option Src → String) : Updater (List (String × Str)) where
+  init := []
+  build := memoBuild key
+
+/-- the seeded key: `config.Source.FullName()`, `""` for a nil source -/
+def keyFullName : Option Src → String
+  | none => ""
+  | some s => s.fullName
+
+/-- a key that tells the selected values of one sync apart: type, full name and params flag -/
+def keyLabel : Option Src → String
+  | none => ""
+  | some s => s.label
+
+/-! ### which backends a cluster gives (registration order of `addBackend`)
+
+Reproduced from `ingress.go` (`ReadAnnotations`, `syncDefaultBackend`, `syncIngressHTTP` →
+`addBackend`): per path the Service annotation first, then the Ingress annotation, then the
+IngressClass parameters; ingresses in the order the converter sorts them.  Checked by the
+correspondence run, not proved from the Go text. -/
+
+structure Svc where
+  ns : String
+  name : String
+  ann : Option Str
+  gateway : Bool := false     -- also the backend of a Gateway API route (`ReadAnnotations`, before the ingresses)
+  dflt : Bool := false        -- `--default-backend-service`
+deriving Repr, DecidableEq
+
+structure Ing where
+  ns : String
+  name : String
+  ann : Option Str
+  params : Option Str
+  svcs : List String          -- service names (own namespace), one path each
+deriving Repr, DecidableEq
+
+structure Cluster where
+  svcs : List Svc
+  ings : List Ing             -- in processing order
+deriving Repr, DecidableEq
+
+def optAnn (s : Src) : Option Str → List (Src × Str)
+  | none => []
+  | some v => [(s, v)]
+
+def Svc.src (s : Svc) : Src := { type := .service, ns := s.ns, name := s.name }
+
+def backendId (ns name : String) : String := ns ++ "_" ++ name ++ "_8080"
+
+/-- add the values of one path to the backend `id` (created at the end when new) -/
+def addPath (id : String) (vals : List (Src × Str)) : List Backend → List Backend
+  | [] => [{ id := id, anns := vals }]
+  | b :: bs => if b.id = id then { b with anns := b.anns ++ vals } :: bs else b :: addPath id vals bs
+
+def Ing.route (c : Cluster) (i : Ing) (acc : List Backend) (svc : String) : List Backend :=
+  match c.svcs.find? (fun s => s.ns == i.ns && s.name == svc) with
+  | none => acc
+  | some s =>
+    addPath (backendId s.ns s.name)
+      (optAnn s.src s.ann
+        ++ optAnn { type := .ingress, ns := i.ns, name := i.name } i.ann
+        ++ optAnn { type := .ingress, ns := i.ns, name := i.name, params := true } i.params) acc
+
+def Cluster.backends (c : Cluster) : List Backend :=
+  let gw := (c.svcs.filter (·.gateway)).map fun s =>
+    ({ id := backendId s.ns ("r-" ++ s.name), anns := optAnn s.src s.ann } : Backend)
+  let df := match c.svcs.find? (·.dflt) with
+    | none => []
+    | some s => [({ id := backendId s.ns s.name, anns := optAnn s.src s.ann } : Backend)]
+  gw ++ c.ings.foldl (fun acc i => i.svcs.foldl (i.route c) acc) df
+
+/-- Spec of one sync: the single-backend oracle on every backend; `outs` = lines per backend -/
+def oracleSync (kws : List Str) (glob : Str) (outs : List (Backend × List Str)) : List String :=
+  outs.filterMap fun bo => oracle kws bo.1.lanns glob bo.2
 
 end HapVerif.C19
